@@ -30,8 +30,8 @@ __attribute__((always_inline)) inline bool same_bits(const T& a, const T& b) { r
     for_<RV>([&](auto I){ ASSUME(dst[I.value] < eshape[I.value]); });                                                 \
     auto _src = (v).indexer.indices(dst);                                                                             \
     OBLIGE(P "." NAME ".srcdim", (size_t)nm::len(_src)==RA, RV, RA, TAG);                                             \
-    for_<RA>([&](auto J){ OBLIGE(P "." NAME ".srcidx", gx<J.value>(_src)==esrc[J.value], RV, RA, TAG, J.value); });   \
     for_<RA>([&](auto J){ if constexpr (J.value != SKIP) OBLIGE("C02." NAME ".src_in_shape", gx<J.value>(_src) < (size_t)rd<J.value>((a).shape_), RV, RA, TAG, J.value); }); \
+    for_<RA>([&](auto J){ OBLIGE(P "." NAME ".srcidx", gx<J.value>(_src)==esrc[J.value], RV, RA, TAG, J.value); });   \
     auto _e1 = std::apply([&](auto... i){ return (v)(i...); }, dst);                                                  \
     auto _e2 = std::apply([&](auto... i){ return (a)(i...); }, esrc);                                                 \
     OBLIGE(P "." NAME ".element", same_bits(_e1,_e2), RV, RA, TAG);                                                   \
